@@ -50,7 +50,7 @@ ASSUMPTIONS = [
 ]
 
 ALARM_S = 5.0
-FOLD_SPECIAL = set("ſKİı")
+FOLD_SPECIAL = set("\u017f\u212a\u0130\u0131")
 _DIGIT_RUN = re.compile(r"\d{4300,}")
 
 
